@@ -2676,8 +2676,9 @@ class SequenceAndSetBase(base.ConstructedAsn1Type):
         mapping = {}
 
         for idx, value in enumerate(self._componentValues):
-            # Absent fields are not in the mapping
-            if value is noValue:
+            # Absent fields are not in the mapping (a schema placeholder
+            # instantiated by an earlier read is still an absent field)
+            if value is noValue or not value.isValue:
                 continue
 
             name = self.componentType.getNameByPosition(idx)
